@@ -1,0 +1,25 @@
+//! Yield points for external verification harnesses (feature `verif-hooks`).
+//!
+//! `yield_point(label)` is called immediately before every lock acquisition of the in-memory
+//! filesystem. It does nothing unless a scheduler has been installed with [`install`], in which
+//! case the scheduler decides when the calling thread may proceed.
+
+use std::sync::{Arc, RwLock};
+
+/// A scheduler: called with the label of the yield point that the current thread reached
+pub type Scheduler = Arc<dyn Fn(&str) + Send + Sync>;
+
+static SCHEDULER: RwLock<Option<Scheduler>> = RwLock::new(None);
+
+/// Installs (or, with `None`, removes) the scheduler consulted at every yield point
+pub fn install(scheduler: Option<Scheduler>) {
+    *SCHEDULER.write().unwrap() = scheduler;
+}
+
+/// Called immediately before a lock acquisition; no-op unless a scheduler is installed
+pub fn yield_point(label: &str) {
+    let scheduler = SCHEDULER.read().unwrap().clone();
+    if let Some(scheduler) = scheduler {
+        scheduler(label);
+    }
+}
